@@ -68,6 +68,7 @@ fn eval(op: &str, args: &[&str]) -> Option<Vec<String>> {
         "mboxlist" => c17::mboxlist(args),
         "mboxparse" => c17::mboxparse(args),
         "date" => c17::date(args),
+        "dparse" => c17::dparse(args),
         "typed" => c17::typed(args),
         "build" => c17::build(args),
         "hdrs" => c02::hdrs(args),
